@@ -72,6 +72,15 @@ type Tree struct {
 	Val         float32 `json:"val"`
 }
 
+// EmbT and EmbU promote the same JSON name at the same depth, one through a tag and one through its
+// bare Go name: encoding/json keeps the tagged one.
+type EmbT struct {
+	Serial int64 `json:"ID"`
+}
+type EmbU struct {
+	ID string
+}
+
 // PP recurses through two pointer levels, directly and inside containers.
 type PP struct {
 	V    uint8           `json:"v"`
@@ -90,7 +99,7 @@ type Levels struct {
 }
 
 var named = map[string]reflect.Type{
-	"PP": reflect.TypeOf(PP{}), "Levels": reflect.TypeOf(Levels{}),
+	"PP": reflect.TypeOf(PP{}), "Levels": reflect.TypeOf(Levels{}), "EmbT": reflect.TypeOf(EmbT{}), "EmbU": reflect.TypeOf(EmbU{}),
 	"EmbA": reflect.TypeOf(EmbA{}), "EmbB": reflect.TypeOf(EmbB{}), "Node": reflect.TypeOf(Node{}), "MutA": reflect.TypeOf(MutA{}), "MutB": reflect.TypeOf(MutB{}), "Tree": reflect.TypeOf(Tree{}),
 }
 
@@ -360,17 +369,14 @@ func (g *gctx) typ(depth int, inContainer bool) *TD {
 		}
 		if rapid.IntRange(0, 3).Draw(g.t, "embed") == 0 {
 			g.feats["embedded"] = true
-			en := rapid.SampledFrom([]string{"EmbA", "EmbB"}).Draw(g.t, "embname")
+			en := rapid.SampledFrom([]string{"EmbA", "EmbB", "EmbT", "EmbU"}).Draw(g.t, "embname")
 			et := &TD{K: "named", Name: en}
 			if rapid.Bool().Draw(g.t, "embptr") {
 				et = &TD{K: "ptr", Elem: et}
 			}
 			td.Fields = append(td.Fields, Field{Name: en, T: et, Embedded: true})
 			if rapid.IntRange(0, 2).Draw(g.t, "embed2") == 0 {
-				other := "EmbB"
-				if en == "EmbB" {
-					other = "EmbA"
-				}
+				other := map[string]string{"EmbA": "EmbB", "EmbB": "EmbA", "EmbT": "EmbU", "EmbU": "EmbT"}[en]
 				td.Fields = append(td.Fields, Field{Name: other, T: &TD{K: "named", Name: other}, Embedded: true})
 			}
 		}
